@@ -203,6 +203,19 @@ pub fn sites(tier: Tier) -> Vec<Site> {
     s.push(packet_site());
     s.push(pairs_site());
     s.push(reachable_site());
+    // no memory between threads either: histories of 2 and 3 decodes / encodes spread over two threads
+    {
+        let mut corpus: Vec<(String, [u8; 4])> = vec![];
+        for name in ["XFG", "FBM", "BF1", "UF1", "XRT"] { let b = name.as_bytes(); corpus.push((format!("vehicle {name}"), [b[0], b[1], b[2], 0])); }
+        for id in [0x00db_f12eu32, 0x0007_409a, 0x0012_3456, 0x5a5a_5a5a, 1, 0] { corpus.push((format!("vehicle id {id:#010x}"), id.to_le_bytes())); }
+        s.push(crate::crossthread::site("C13", "cross-thread-vehicles", "vehicle decode + re-encode + display", corpus, |b: &[u8; 4]| {
+            Vehicle::read_le(&mut Cursor::new(&b[..])).map(|v| {
+                let mut c = Cursor::new(Vec::new());
+                let w = v.write_le(&mut c).map(|_| c.into_inner()).map_err(|_| ());
+                (format!("{v:?}"), format!("{v}"), w)
+            }).map_err(|_| ())
+        }));
+    }
     {
         let vals = std::sync::Arc::new(short_read_values());
         let n = vals.len() as u64 * 4 * 8 * 2;
